@@ -9,8 +9,8 @@ EXTENDS JsonValue
 ca == <<97>>  cb == <<98>>  cc == <<99>>
 N1   == Num(<<49>>)      \* 1
 N10  == Num(<<49,46,48>>)      \* 1.0
-NBig == Num(<<49,50,51,52,53,54,55,56,57,48,49,50,51,52,53,54,55,56,57,48,49,50,51>>)      \* 12345678901234567890123
-NBig2 == Num(<<49,50,51,52,53,54,55,56,57,48,49,50,51,52,53,54,55,56,57,48,49,50,52>>)      \* 12345678901234567890124
+NBig == Num(<<49,50,51,52,53,54,55,56,57,48,49,50,51,52,53,54,55,56,57,48,49,50,51,52,53,54,55,56,57,48,49,50,51,52,53,54,55,56,57,48,49,50,51,52,53,54,55,56,57,48,49,50,51,52,53,54,55,56,57,48,49,50,51,52,53,54,55,56,57,48>>)      \* 1234567890123456789012345678901234567890123456789012345678901234567890 (70 digits: longer than any scratch buffer)
+NBig2 == Num(<<49,50,51,52,53,54,55,56,57,48,49,50,51,52,53,54,55,56,57,48,49,50,51,52,53,54,55,56,57,48,49,50,51,52,53,54,55,56,57,48,49,50,51,52,53,54,55,56,57,48,49,50,51,52,53,54,55,56,57,48,49,50,51,52,53,54,55,56,57,49>>)      \* the same, last digit 1
 SX   == Str(<<120>>)
 
 Leaf  == { Null, N1, N10, SX }
